@@ -9,8 +9,10 @@ import (
 	"strings"
 
 	"github.com/ajitpratap0/GoSQLX/pkg/models"
+	"github.com/ajitpratap0/GoSQLX/pkg/sql/ast"
 	"github.com/ajitpratap0/GoSQLX/pkg/sql/keywords"
 	"github.com/ajitpratap0/GoSQLX/pkg/sql/parser"
+	"github.com/ajitpratap0/GoSQLX/pkg/sql/token"
 	"github.com/ajitpratap0/GoSQLX/pkg/sql/tokenizer"
 
 	"verif/sim/canon"
@@ -107,6 +109,11 @@ func Rotations() int { return len(Inputs) * 6 }
 
 var probeTokens [][]models.TokenWithSpan
 
+// parser-token forms of the probe inputs the library accepts (only obtainable
+// through a successful parse), and the same list with the token before the end
+// marker replaced: a stream of the same length that fails late
+var probePTokens, probePTokensCut [][]token.Token
+
 func init() {
 	for _, in := range Inputs {
 		t, _ := tokenizer.New()
@@ -115,6 +122,15 @@ func init() {
 			toks = nil
 		}
 		probeTokens = append(probeTokens, toks)
+		var pt, cut []token.Token
+		if tree, ptoks, perr := parser.ParseBytesWithTokens([]byte(in.SQL)); perr == nil && len(ptoks) >= 3 {
+			ast.ReleaseAST(tree)
+			pt = ptoks
+			cut = append([]token.Token{}, ptoks...)
+			cut[len(cut)-2] = ptoks[0] // same length, the statement keyword where an operand is due
+		}
+		probePTokens = append(probePTokens, pt)
+		probePTokensCut = append(probePTokensCut, cut)
 	}
 }
 
@@ -134,6 +150,10 @@ func ParBattery(p *parser.Parser, rot int) []Res {
 		if toks == nil {
 			continue
 		}
+		if pt, cut := probePTokens[j], probePTokensCut[j]; pt != nil && first == 0 {
+			// parser-token entry points, position-less: first in a third of the orders
+			out = ptokProbes(p, in.Name, pt, cut, out)
+		}
 		for k := 0; k < 3; k++ {
 			switch (k + first) % 3 {
 			case 0:
@@ -147,12 +167,27 @@ func ParBattery(p *parser.Parser, rot int) []Res {
 				out = append(out, Res{in.Name + "/ParseWithRecoveryFromModelTokens", "stmts=" + canon.Of(stmts) + " errs=" + canon.Of(errs)})
 			}
 		}
+		if pt, cut := probePTokens[j], probePTokensCut[j]; pt != nil && first != 0 {
+			out = ptokProbes(p, in.Name, pt, cut, out)
+		}
 		tree, err := p.ParseFromModelTokensWithPositions(toks)
 		out = append(out, Res{in.Name + "/ParseFromModelTokensWithPositions", "tree=" + canon.Of(tree) + " err=" + canon.Err(err)})
 	}
 	if !noTokFirst {
 		out = noTokens(p, out)
 	}
+	return out
+}
+
+func ptokProbes(p *parser.Parser, name string, pt, cut []token.Token, out []Res) []Res {
+	stmts, errs := p.ParseWithRecovery(cut)
+	out = append(out, Res{name + "/ParseWithRecovery(cut)", "stmts=" + canon.Of(stmts) + " errs=" + canon.Of(errs)})
+	tree, err := p.Parse(cut)
+	out = append(out, Res{name + "/Parse(cut)", "tree=" + canon.Of(tree) + " err=" + canon.Err(err)})
+	stmts, errs = p.ParseWithRecovery(pt)
+	out = append(out, Res{name + "/ParseWithRecovery", "stmts=" + canon.Of(stmts) + " errs=" + canon.Of(errs)})
+	tree, err = p.ParseContext(simctx.Never(), pt)
+	out = append(out, Res{name + "/ParseContext", "tree=" + canon.Of(tree) + " err=" + canon.Err(err)})
 	return out
 }
 
